@@ -8,7 +8,7 @@ var runidInstr = []Instr{
 func init() {
 	props["C09"] = &Prop{
 		ID: "C09", PkgDir: "interp", PkgPath: interpPath, PkgName: "interp",
-		Harness:    []string{"interp_common.go", "C09.go"},
+		Harness:    []string{"interp_common.go", "C09.go", "C09_block.go"},
 		Instrument: runidInstr,
 		Obligs: func(tier string) []Oblig {
 			steps, nexec := 4, 2
@@ -16,19 +16,23 @@ func init() {
 				steps, nexec = 6, 3
 			}
 			g := map[string]int{"vhMaxSteps": steps, "vhNExec": nexec}
-			return []Oblig{
+			var blocks []Oblig
+			for op := 0; op <= 5; op++ {
+				blocks = append(blocks, Oblig{Harness: "vh_C09_block", Globals: map[string]int{"vhBlockOp": op}, Unroll: 8})
+			}
+			return append(blocks, []Oblig{
 				{Harness: "vh_C09_gate", Globals: g, Unroll: steps + 3},
 				{Harness: "vh_C09_execute", Globals: g, Unroll: steps + 3},
 				{Harness: "vh_C09_wrapper", Globals: map[string]int{"vhMaxSteps": 2, "vhNExec": 1}, Unroll: 6},
-			}
+			}...)
 		},
-		Bounds:      []string{"<= 4 (quick) / 6 (thorough) exec steps in total", "2/3 distinct exec closures per activation, any successor relation", "cancel instant: any logical clock value (one tick per run-id load)", "Execute with root, 2 init/main nodes"},
+		Bounds:      []string{"<= 4 (quick) / 6 (thorough) exec steps in total", "2/3 distinct exec closures per activation, any successor relation", "cancel instant: any logical clock value (one tick per run-id load)", "Execute with root, 2 init/main nodes", "blocking operations recv (2 forms), recv2, send, range over channel, select (2 receive clauses): channel ready or not, any case of reflect.Select fires"},
 		Assumptions: []string{"exec steps are opaque (any successor or nil)", "one cancel per evaluation", "single goroutine", "run-id accessors instrumented with the clock tick (overlay)"},
-		Outside:     []string{"blocking channel operations racing done", "goroutine trees", "wall-clock promptness", "EvalWithContext's select itself"},
+		Outside:     []string{"goroutine trees", "wall-clock promptness", "EvalWithContext's select itself"},
 	}
 	props["C10"] = &Prop{
 		ID: "C10", PkgDir: "interp", PkgPath: interpPath, PkgName: "interp",
-		Harness:    []string{"interp_common.go", "C09.go"},
+		Harness:    []string{"interp_common.go", "C09.go", "C09_block.go"},
 		Instrument: runidInstr,
 		Obligs: func(tier string) []Oblig {
 			g := map[string]int{"vhMaxSteps": 2, "vhNExec": 1}
